@@ -400,6 +400,19 @@ func runC07(k *kernel.K) {
 	for id := range holdOrigin {
 		delete(holdOrigin, id)
 	}
+	// A client that does not take its response off the wire may stay that way for a while (much less
+	// than the proxy's timeout) before it reads on: the response in flight still has to arrive whole.
+	slowReader := false
+	for _, c := range conns {
+		slowReader = slowReader || c.point == "write_blocked"
+	}
+	if slowReader && w.Chance(1, 2) {
+		// (everything else runs first, so that the response is on its way when the pause begins)
+		for k.Step() {
+		}
+		k.Probe("blocked_reader_pauses_before_reading_on")
+		k.Advance(time.Duration(3+w.Draw(58)) * time.Second)
+	}
 	for _, c := range conns {
 		if c.point == "write_blocked" {
 			c.client.C.Peer().Stall(false)
